@@ -306,6 +306,7 @@ _banned = [
     "namespace",
     "add",
     "get",
+    "bundle_ports",
 ]
 
 
